@@ -211,9 +211,9 @@ def wrWave (c : Col) (loc : Int) (w : Wv) : Col := writeCells c loc (w.ents ++ [
     reader looks at them.) -/
 def evWave (cfg : Nat → WCfg) (loc : Nat → Int) : Ev := fun o sim c =>
   let g := cfg sim
+  let op : KV.Sig.Op := ⟨o.lut, o.out, o.ins⟩
   let xs := o.ins.map fun i => readWave (rdCells c (loc i) (g.cap i))
-  let r := waveEval o.lut (fun i p q => g.delay (o.ins.getD i 0) p q) (fun i => (slot xs i).ents) (fun i => (slot xs i).term) (g.cap o.out)
-  (wrWave c (loc o.out) ⟨r.1, r.2.1⟩, r.2.2.1, r.2.2.2)
+  (wrWave c (loc o.out) (waveSem g op xs), (waveCounts g op xs).1, (waveCounts g op xs).2)
 
 /-! ## capture, `sd = 0` -/
 structure ScanSt where
